@@ -48,6 +48,10 @@ ExpectedTriples(line, GO) ==
     [] line.kind = "to_undirected" ->
          IF line.recip THEN { x \in P : <<x[2], x[1], x[3]>> \in P }
          ELSE P \cup { <<x[2], x[1], x[3]>> : x \in P }
+    \* beyond the listed properties (clauses named X01_*, reported, never a violation):
+    \* the subgraph induced on nbunch, and a copy without interactions
+    [] line.kind = "subgraph"   -> { x \in P : x[1] \in ToSet(line.nb) /\ x[2] \in ToSet(line.nb) }
+    [] line.kind = "empty_copy" -> {}
     [] OTHER -> P
 \* H's table holds both orders of an undirected pair
 Sym(hdir, P) == IF hdir THEN P ELSE P \cup { <<x[2], x[1], x[3]>> : x \in P }
@@ -55,6 +59,7 @@ Sym(hdir, P) == IF hdir THEN P ELSE P \cup { <<x[2], x[1], x[3]>> : x \in P }
 ExpectedNodes(line, GO, P) ==
   IF line.kind \in {"time_slice", "time_slice2", "snapshots", "interactions"}
   THEN { x[1] : x \in P } \cup { x[2] : x \in P }
+  ELSE IF line.kind = "subgraph" THEN NodesOf(GO) \cap ToSet(line.nb)
   ELSE NodesOf(GO)
 
 DerivedRes(line) ==
@@ -73,6 +78,7 @@ PropOf(kind) ==
     [] kind = "snapshots"    -> "C09"
     [] kind = "interactions" -> "C10"
     [] kind = "json"         -> "C11"
+    [] kind \in {"subgraph", "empty_copy"} -> "X01"
     [] OTHER -> "C00"
 
 \* KF3 (pinned by DynGraphTestCase.test_conversion): to_directed creates only
@@ -141,7 +147,8 @@ DeriveTable(R, T, prevO, line) ==
       got  == Triples(HO)
       exp  == Sym(hdir, P)
       ns   == ExpectedNodes(line, GO, P)
-      RH   == SelfRef(hdir, HO, ns, IF line.kind \in {"snapshots", "interactions"} THEN <<>>
+      noattr == line.kind \in {"snapshots", "interactions"} \/ (line.kind = "empty_copy" /\ ~line.withdata)
+      RH   == SelfRef(hdir, HO, ns, IF noattr THEN <<>>
                                     ELSE AttrNonZero(AttrFn(GO), ns))   \* edge lists carry no attributes
       TH   == SelfTaints(line, RH)
       self == CoreTable(RH, HO, TH) \cup (IF line.q = <<>> THEN {} ELSE C02_Table(RH, HO, line.q))
@@ -155,7 +162,8 @@ DeriveTable(R, T, prevO, line) ==
       ELSE "fail">>,
     <<nm("c_nodes_attrs"), St(/\ NodesOf(HO) = ns
                               /\ (line.kind \in {"snapshots", "interactions"} \/
-                                  \A x \in ToSet(HO.attrs) : x[1] \in DOMAIN AttrFn(GO) /\ x[2] = AttrFn(GO)[x[1]]))>>,
+                                  \A x \in ToSet(HO.attrs) : x[1] \in DOMAIN AttrFn(GO)
+                                                              /\ x[2] = (IF noattr THEN 0 ELSE AttrFn(GO)[x[1]])))>>,
     <<nm("d_source_unchanged"), St(line.src.raw = GO.raw /\ line.src2.raw = GO.raw)>>,
     <<nm("g_result_kind"), St(line.res = DerivedRes(line))>> }
   \cup { <<nm("H_" \o x[1]), x[2]>> : x \in self }
